@@ -17,8 +17,10 @@ import (
 	"math/big"
 	"os"
 	"strings"
+	"time"
 
 	"github.com/meshplus/bitxhub-kit/types"
+	"github.com/meshplus/bitxhub-model/pb"
 	"github.com/meshplus/bitxhub/internal/ledger"
 	"github.com/meshplus/bitxhub/verifharness/clx"
 	"github.com/meshplus/bitxhub/verifharness/hx"
@@ -212,8 +214,153 @@ func runHistory(line []byte) (interface{}, error) {
 	return out, nil
 }
 
+// ---------------------------------------------------------------- executor-level leg
+//
+// input : {"ops":[{"op":"x","n":3,"bad":1},{"op":"o"}], "kh":k}   x = the REAL executor executes a
+// block of n native transfers (bad>0: that many of them carry a wrong nonce and fail), o = restart.
+// The blocks are sealed by executor.processExecuteEvent; the entries reported are what the
+// executor handed to the ledger (header, hash, transactions from the executed event; receipts
+// and interchain meta read back).  Output has the shape of the chain driver's.
+
+type execIn struct {
+	KH  int `json:"kh"`
+	Ops []struct {
+		Op  string `json:"op"`
+		N   int    `json:"n"`
+		Bad int    `json:"bad"`
+	} `json:"ops"`
+}
+
+func execPass(h execIn, t *clx.Tables, observe bool, uh, ut []*types.Hash) (out histOut, madeB, madeT []*types.Hash, err error) {
+	c, err := hx.NewChain(hx.ChainOpts{NumAdmins: 4, Quiet: true})
+	if err != nil {
+		return out, nil, nil, err
+	}
+	defer c.Close()
+	view := func() *clx.Stores {
+		return &clx.Stores{Dir: c.Dir, Ledger: c.Ledger, CL: c.Ledger.ChainLedger.(*ledger.ChainLedgerImpl), Repo: c.Repo}
+	}
+	nonces := make([]uint64, 4)
+	entryOf := func(opIdx int, height uint64) (clx.Entry, *types.Hash, []*types.Hash, error) {
+		s := view()
+		b, err := s.CL.GetBlock(height, true)
+		if err != nil {
+			return clx.Entry{}, nil, nil, err
+		}
+		var txh, rch []*types.Hash
+		for _, tx := range b.Transactions.Transactions {
+			txh = append(txh, tx.GetHash())
+			r, err := s.CL.GetReceipt(tx.GetHash())
+			if err != nil {
+				return clx.Entry{}, nil, nil, err
+			}
+			rch = append(rch, r.Hash())
+		}
+		im, err := s.CL.GetInterchainMeta(height)
+		if err != nil {
+			return clx.Entry{}, nil, nil, err
+		}
+		ic, tag := clx.CanonIC(im)
+		e := clx.Entry{Op: opIdx, Hdr: t.Header(b.BlockHeader), Hash: t.In.Hash(b.BlockHash), Txs: t.Root(txh), Rcpts: t.Root(rch), IC: ic, Tag: tag}
+		return e, b.BlockHash, txh, nil
+	}
+	// step -1: genesis (block 1) was executed by NewChain
+	e, bh, txh, err := entryOf(-1, 1)
+	if err != nil {
+		return out, nil, nil, err
+	}
+	out.Entries = append(out.Entries, e)
+	madeB, madeT = append(madeB, bh), append(madeT, txh...)
+	st := stepOut{}
+	if observe {
+		st.Obs = clx.Observe(view(), t, h.KH, uh, ut)
+	}
+	out.Steps = append(out.Steps, st)
+	for i, o := range h.Ops {
+		code := 0
+		switch o.Op {
+		case "x":
+			var txs []pb.Transaction
+			for j := 0; j < o.N; j++ {
+				a := (i + j) % 4
+				to := hx.Addr(hx.Key(5000 + j))
+				nonce := nonces[a]
+				if j < o.Bad {
+					nonce += 7 // wrong nonce: the transaction fails, its receipt is still stored
+				} else {
+					nonces[a]++
+				}
+				txs = append(txs, hx.TransferTx(c.Admins[a], nonce, to, "1"))
+			}
+			before := c.Height()
+			ev := c.ExecBlock(txs, true, 20*time.Second)
+			if ev == nil || c.Height() != before+1 {
+				code = 8
+				break
+			}
+			e, bh, txh, err := entryOf(i, c.Height())
+			if err != nil {
+				return out, nil, nil, err
+			}
+			// what the executor announced must be what the ledger holds
+			if ev.Block.BlockHash.String() != bh.String() {
+				code = 6
+			}
+			out.Entries = append(out.Entries, e)
+			madeB, madeT = append(madeB, bh), append(madeT, txh...)
+		case "o":
+			if err := c.Restart(); err != nil {
+				return out, nil, nil, fmt.Errorf("restart: %w", err)
+			}
+		default:
+			return out, nil, nil, fmt.Errorf("unknown op %q", o.Op)
+		}
+		st := stepOut{Code: code}
+		if observe {
+			st.Obs = clx.Observe(view(), t, h.KH, uh, ut)
+		}
+		out.Steps = append(out.Steps, st)
+	}
+	return out, madeB, madeT, nil
+}
+
+func runExec(line []byte) (interface{}, error) {
+	var h execIn
+	if err := json.Unmarshal(line, &h); err != nil {
+		return nil, err
+	}
+	t := clx.NewTables()
+	_, b1, t1, err := execPass(h, t, false, nil, nil)
+	if err != nil {
+		return nil, err
+	}
+	uh := append(append([]*types.Hash{}, b1...), clx.FakeRoot("no-such-block", 0))
+	ut := append(append([]*types.Hash{}, t1...), clx.Tx(999999).GetHash())
+	out, b2, _, err := execPass(h, t, true, uh, ut)
+	if err != nil {
+		return nil, err
+	}
+	if len(b1) != len(b2) {
+		return nil, fmt.Errorf("executor run not reproducible: %d vs %d blocks", len(b1), len(b2))
+	}
+	for i := range b1 {
+		if b1[i].String() != b2[i].String() {
+			return nil, fmt.Errorf("executor run not reproducible at block %d", i+1)
+		}
+	}
+	for _, x := range uh {
+		out.UH = append(out.UH, t.In.Hash(x))
+	}
+	for _, x := range ut {
+		out.UT = append(out.UT, t.In.Hash(x))
+	}
+	out.HashTbl, out.RootTbl = t.HashTable(), t.RootTable()
+	return out, nil
+}
+
 func main() {
 	hx.Main(map[string]func(args []string) error{
 		"chain": func(args []string) error { return hx.Lines(runHistory) },
+		"exec":  func(args []string) error { return hx.Lines(runExec) },
 	})
 }
